@@ -420,7 +420,7 @@ Proof.
   unfold run_job. destruct (choice_legal (job_matches st j now min_age) chosen max); [reflexivity|].
   destruct j; cbn; try discriminate.
   - destruct (existsb (topic_has_messages st) chosen); cbn; discriminate.
-  - destruct (sweep_each st (sort_ids chosen) wnow fr) as [[[st1 fr1] w] n]. cbn. discriminate.
+  - destruct (sweep_each st chosen wnow fr) as [[[st1 fr1] w] n]. cbn. discriminate.
 Qed.
 
 Lemma choice_legal_in matching chosen max i :
@@ -433,12 +433,86 @@ Qed.
 
 Lemma run_job_sweep st now min_age max chosen wnow fr :
   r_notes (run_job st now JDeadLetterSweep min_age max chosen false wnow fr) = [] ->
-  exists st1 fr1 w, sweep_each st (sort_ids chosen) wnow fr = (st1, fr1, w, []) /\
+  exists st1 fr1 w, sweep_each st chosen wnow fr = (st1, fr1, w, []) /\
     r_state (run_job st now JDeadLetterSweep min_age max chosen false wnow fr) = st1.
 Proof.
   unfold run_job.
-  destruct (sweep_each st (sort_ids chosen) wnow fr) as [[[st1 fr1] w] n] eqn:E.
+  destruct (sweep_each st chosen wnow fr) as [[[st1 fr1] w] n] eqn:E.
   cbn [done r_notes r_state]. intros H.
   apply app_eq_nil in H. destruct H as [_ H]. apply app_eq_nil in H. destruct H as [-> _].
   exists st1, fr1, w. split; reflexivity.
+Qed.
+
+(* ---- only Pull answers with pulled messages ---- *)
+Definition not_pull (r : resp) : Prop := match r with RPull _ => False | _ => True end.
+
+Lemma create_sub_not_pull st q fresh wnow : not_pull (r_resp (create_sub st q fresh wnow)).
+Proof.
+  unfold create_sub.
+  destruct (negb (valid_sub_name (q_name q))); [exact I|].
+  destruct (q_detached q); [exact I|].
+  match goal with |- context[if ?c then fail st Unimplemented else _] => destruct c end; [exact I|].
+  match goal with |- context[if ?c then fail st Unimplemented else _] => destruct c end; [exact I|].
+  match goal with |- context[if ?c then fail st Unimplemented else _] => destruct c end; [exact I|].
+  destruct (match q_dl q with Some (t, n) => _ | None => _ end) as [max_att dl_name].
+  match goal with |- context[if ?c then fail st InvalidArgument else _] => destruct c end; [exact I|].
+  destruct (is_some (find_live_sub st (q_name q))); [exact I|].
+  destruct (find_live_topic st (q_topic q)) as [t|]; [|exact I].
+  match goal with |- context[if ?c then fail st Unknown else _] => destruct c end; [exact I|].
+  match goal with |- context[match ?c with Some dlt => _ | None => fail st NotFound end] => destruct c end;
+    exact I.
+Qed.
+
+Lemma update_sub_not_pull st q paths wnow : not_pull (r_resp (update_sub st q paths wnow)).
+Proof.
+  unfold update_sub.
+  destruct (negb (valid_sub_name (q_name q))); [exact I|].
+  destruct (find_live_sub st (q_name q)) as [s0|]; [|exact I].
+  destruct (upd_paths _ _ _ _ _) as [c|[[s1 dl1] t1]]; [exact I|].
+  destruct (negb t1); exact I.
+Qed.
+
+Lemma run_job_not_pull st now j min_age max chosen failed wnow fr :
+  not_pull (r_resp (run_job st now j min_age max chosen failed wnow fr)).
+Proof.
+  unfold run_job. destruct failed; [destruct j; exact I|].
+  destruct j; try exact I.
+  - cbv zeta. destruct (existsb (topic_has_messages st) chosen); exact I.
+  - cbv zeta. destruct (sweep_each st chosen wnow fr) as [[[st1 fr1] w] n]. exact I.
+Qed.
+
+Lemma not_pull_nil r : not_pull r -> pulled_of r = [].
+Proof. destruct r; cbn; try reflexivity. intros []. Qed.
+
+Lemma pulled_only_pull st now o p :
+  In p (pulled_of (answer st now o)) ->
+  exists name max ret oth w fz fr, o = Pull name max ret oth w fz fr.
+Proof.
+  intros H.
+  assert (Hn : (exists name max ret oth w fz fr, o = Pull name max ret oth w fz fr) \/
+               not_pull (answer st now o)).
+  { destruct o; try (left; repeat eexists; fail); right; unfold answer, step.
+    all: try apply create_sub_not_pull; try apply update_sub_not_pull; try apply run_job_not_pull.
+    all: repeat break_match; exact I. }
+  destruct Hn as [Hn|Hn]; [exact Hn|].
+  apply not_pull_nil in Hn. rewrite Hn in H. destruct H.
+Qed.
+
+Lemma pulled_eligible st now name max returned others w fz fr p d :
+  ids_unique st -> legal st now (Pull name max returned others w fz fr) ->
+  In p (pulled_of (answer st now (Pull name max returned others w fz fr))) ->
+  In d (dels st) -> d_id d = p_ack p ->
+  exists s, find_live_sub st name = Some s /\ eligible st s now d = true.
+Proof.
+  intros Hu Hl Hp Hd Hid.
+  destruct (pull_cases _ _ _ _ _ _ _ _ _ Hl) as [[_ Hnil]|[s' [st1 [fr1 [ps [wk [Hf' [Hsel [Har [_ Hans]]]]]]]]]].
+  { rewrite Hnil in Hp. destruct Hp. }
+  rewrite Hans in Hp. cbn [pulled_of] in Hp.
+  destruct (apply_results_pulled _ _ _ _ _ _ _ _ _ _ _ _ _ _ _ _ Har p Hp) as [c [Hc Hpc]].
+  assert (Hud : NoDup (map d_id (dels st))) by apply Hu.
+  apply pull_cands_in in Hc; [|exact Hud]. destruct Hc as [Hc Hobs].
+  assert (d = c) by (apply (NoDup_map_inj d_id (dels st)); auto; congruence). subst c.
+  destruct (selection_legal_eligible _ _ _ _ _ _ _ Hsel Hobs) as [e [He1 [He2 He3]]].
+  assert (e = d) by (apply (NoDup_map_inj d_id (dels st)); auto). subst e.
+  exists s'. split; [exact Hf'|exact He3].
 Qed.
